@@ -147,6 +147,7 @@ fn c05_btmap_layout_sanity() {
     let one: [usize; 3] = unsafe { core::mem::transmute_copy(&m) };
     assert!(one[0] != 0 && one[1] == 0 && one[2] == 1);
     forget(m);
+    kani::cover!(true);
 }
 
 /// `SecretRatchets::message_key_generation` (the receive path's dispatch between a leaf's two ratchets): the
